@@ -1,7 +1,8 @@
 """C08 — client-side trial caches never serve a view that differs from the backend.
 
 Specs: CacheSync (algorithm level: watermark + unfinished-set caches, exhaustively checked; the pre-repair
-create_new_trial must fail), Storage/StorageTrace (property level: with several clients on ONE database every
+create_new_trial must fail, and so must a point read that keeps a finished row and advances the watermark),
+Storage/StorageTrace (property level: with several clients on ONE database every
 reply of every client must be the Storage contract's reply on the one shared state, i.e. caches are invisible).
 """
 from __future__ import annotations
